@@ -96,6 +96,14 @@ def r2(ctx):
         c_ = peel(t_)
         if pol_ is None or lp is None or g.block not in lp.blocks or c_[0] != 'bin' or c_[1] not in ('Lt', 'Le', 'Gt', 'Ge', 'Eq', 'Ne'):
             continue
+        # a comparison of whole entries is a PartialOrd call on the tuple / Reverse; a component comparison is a primitive integer comparison
+        sw = b.blocks[g.block].term
+        prim = True
+        if sw.kind == 'switch' and sw.discr.place is not None and not sw.discr.place.proj:
+            dw, dp = defs_of(b, sw.discr.place.local)
+            prim = not any(not hasattr(d_, 'rv') for d_ in dw)     # defined by a call (PartialOrd::lt ..) -> compound operands
+        if not prim:
+            continue
         if any(has(init_value(b, x), Call('BinaryHeap::peek', ANY)) or has(init_value(b, x), Call('BinaryHeap::peek_mut', ANY)) or
                has(x, Call('BinaryHeap::peek', ANY)) or has(x, Call('BinaryHeap::peek_mut', ANY)) for x in (c_[2], c_[3])):
             ctx.fail(b, 'selection-total-order', 'Dictionary::create compares a component of the heap top (`%s`, line %d) instead of whole entries: among equally frequent '
@@ -103,13 +111,26 @@ def r2(ctx):
                      % (show_in(b, t_)[:100], b.blocks[g.block].term.span['line']), b.blocks[g.block].term.span)
     pops = [t for t in b.calls(r'BinaryHeap::pop$')]
     inl = [t for t in pops if lp and t.bb in lp.blocks]
-    ok = len(inl) == 1
+    pk = [t for t in b.calls(r'BinaryHeap::peek_mut$') if lp and t.bb in lp.blocks]
+    if not inl and len(pk) == 1:
+        # bounded form: push while the heap holds fewer than max_size entries, otherwise overwrite the top (the smallest kept entry) in place
+        # when the new entry ranks higher -- the same max_size largest entries under the total order (the comparison is checked above)
+        from analysis.pat import holds
+        room = holds(b, p.bb, ('bin', 'Lt', Call('BinaryHeap::len', ANY), Pred(lambda u: _is_sentinel(u) and has(u, ('arg', 2, ANY)))))
+        wr = [s_ for s_ in b.stmts() if s_.kind == 'assign' and s_.lhs.proj and s_.bb in lp.blocks and has(sym(b, s_.lhs), Call('PeekMut', ANY)) or
+              (s_.kind == 'assign' and s_.lhs.proj and s_.bb in lp.blocks and has(init_value(b, sym(b, s_.lhs)), Call('BinaryHeap::peek_mut', ANY)))]
+        ctx.require(room and bool(wr), b, 'evict-strict', 'an entry is pushed only while heap.len() < max_size, otherwise it can only replace the top in place (max_size entries are kept)',
+                    'bounded heap form: push under room = %s, in-place replacements of the top: %d' % (room, len(wr)), p.span)
+        ok = None
+    else:
+        ok = len(inl) == 1
     if ok:
         at = [(core(tt), pol) for tt, pol, g in atoms_at(b, inl[0].bb)]
         ok = any(pol is True and match(tt, ('bin', 'Gt', Call('BinaryHeap::len', ANY), Pred(lambda u: _is_sentinel(u) and has(u, ('arg', 2, ANY))))) for tt, pol in at)
-    ctx.require(ok, b, 'evict-strict', 'an entry is evicted only under heap.len() > max_size (max_size entries are kept)',
-                'eviction condition is not the strict heap.len() > max_size')
-    ctx.require(lp is not None and cfg.dominates(b, p.bb, inl[0].bb) if inl else False, b, 'push-then-evict', 'push first, then evict the smallest', None)
+    if ok is not None:
+        ctx.require(ok, b, 'evict-strict', 'an entry is evicted only under heap.len() > max_size (max_size entries are kept)',
+                    'eviction condition is not the strict heap.len() > max_size')
+        ctx.require(lp is not None and cfg.dominates(b, p.bb, inl[0].bb) if inl else False, b, 'push-then-evict', 'push first, then evict the smallest', None)
     drain = [t for t in pops if t not in inl]
     ok = len(drain) == 1
     if ok:
@@ -224,10 +245,22 @@ def r5(ctx):
     islen = Pred(lambda u: match(u, Call('Vec::len', ANY)) or match(u, Call('slice::len', ANY)) or (u[0] == 'un' and u[1] in ('PtrMetadata', 'Len')) or
                  (u[0] == 'call' and u[1].endswith('PtrMetadata')))
     ok = any(pol is not None and (match(core(tt), ('bin', 'Ne', islen, Const(2))) or match(core(tt), ('bin', 'Eq', islen, Const(2)))) for g in edge_guards(l) for tt, pol in [g.atom()])
-    ctx.require(ok, l, 'load-two-fields', 'load rejects lines that do not have exactly two fields', None)
     ins = [t for t in l.calls(r'HashMap::insert$')]
-    ok = len(ins) == 1 and match(core(sym(l, ins[0].args[1])), ('index', ANY, Const(0))) and has(core(sym(l, ins[0].args[2])), ('index', ANY, Const(1)))
-    ctx.require(ok, l, 'load-fields', 'load inserts (field 0, parsed field 1)', None)
+    # the fields pulled one by one: `match (it.next(), it.next(), it.next()) { (Some(word), Some(freq), None) => insert(word, freq) .. }`
+    pulls = sorted([t for t in l.calls(r'Split.*::next$')], key=lambda t: sum(1 for u in l.calls(r'Split.*::next$') if cfg.dominates(l, u.bb, t.bb)))
+    if not ok and len(pulls) == 3 and len(ins) == 1:
+        vf = variant_facts_at(l, ins[0].bb)
+        st = lambda t: [n_ for tt, n_ in vf if tt == sym(l, t.dest)]
+        ok = st(pulls[0]) == [{'Some'}] and st(pulls[1]) == [{'Some'}] and st(pulls[2]) == [{'None'}]
+        ctx.require(ok, l, 'load-two-fields', 'load rejects lines that do not have exactly two fields', 'the insert runs under %s' % [st(t) for t in pulls])
+        f0 = Pred(lambda u: has(u, Pred(lambda x: x == sym(l, pulls[0].dest))))
+        f1 = Pred(lambda u: has(u, Pred(lambda x: x == sym(l, pulls[1].dest))))
+        okf = match(sym(l, ins[0].args[1]), f0) and match(sym(l, ins[0].args[2]), f1)
+        ctx.require(okf, l, 'load-fields', 'load inserts (field 0, parsed field 1)', None)
+    else:
+        ctx.require(ok, l, 'load-two-fields', 'load rejects lines that do not have exactly two fields', None)
+        ok = len(ins) == 1 and match(core(sym(l, ins[0].args[1])), ('index', ANY, Const(0))) and has(core(sym(l, ins[0].args[2])), ('index', ANY, Const(1)))
+        ctx.require(ok, l, 'load-fields', 'load inserts (field 0, parsed field 1)', None)
     # save iterates all entries
     wr = [t for t in s.calls(r'write_fmt$')]
     ctx.require(len(wr) == 1 and cfg.innermost_loop(s, wr[0].bb) is not None, s, 'save-all', 'save writes one line per entry', None)
